@@ -186,14 +186,18 @@ def run_probes(desc):
         run_shared_objects(rng, counters, v2, sigs)
     for _ in range(4):
         run_threads_probe(counters, v2)
+    for _ in range(80):
+        run_mixin_models(rng, counters, v2)
     violations += v2
     return {"evaluations": counters["partial_pair_checked"] + counters.get("wrapped_pair_checked", 0), "signatures": sorted(sigs), "samples": [],
             "counters": {"two_machine_partial_probes": counters["partial_pair_checked"],
                          "two_machine_wrapped_probes": counters.get("wrapped_pair_checked", 0),
                          "shared_list_sends": counters.get("shared_list_sends", 0),
                          "same_enum_two_classes": counters.get("same_enum_two_classes", 0),
-                         "concurrent_sync_drivers": counters.get("concurrent_sync_drivers", 0)},
-            "violations": violations[:2] + v2[:2]}
+                         "concurrent_sync_drivers": counters.get("concurrent_sync_drivers", 0),
+                         "mixin_models_created": counters.get("mixin_models_created", 0),
+                         "mixin_model_sends": counters.get("mixin_model_sends", 0)},
+            "violations": violations[:2] + v2[:2] + [v for v in v2[2:] if v["mechanism"].startswith("mixin-")][:1]}
 
 
 SHARED_SRC = '''
@@ -308,6 +312,106 @@ def run_shared_objects(rng, counters, violations, sigs):
         if problems:
             violations.append({"mechanism": "enum-states-shared-between-classes", "rule": "C16.callers-objects-stay-callers",
                                "detail": "; ".join(problems)[:600], "witness": {"source": SHARED_SRC + ENUM_B_SRC}})
+
+
+MIXIN_SRC = '''
+class MA(StateMachine):
+    a = State(initial=True)
+    b = State()
+    go = a.to(b) | b.to(a)
+    only_a = a.to.itself()
+
+class MB(StateMachine):
+    a = State(initial=True)
+    b = State()
+    c = State()
+    go = a.to(c) | c.to(a)
+    only_b = a.to(b) | b.to(a)
+
+class Parent(MachineMixin):
+    state_machine_name = "vmon_c16m.MA"
+
+class Child(Parent):
+    state_machine_name = "vmon_c16m.MB"
+
+class GrandChild(Child):
+    pass
+
+class Sibling(Parent):
+    state_machine_attr = "sm2"
+
+class Other(MachineMixin):
+    state_machine_name = "vmon_c16m.MB"
+    state_field_name = "status"
+'''
+MIXIN_EXPECT = {"Parent": ("MA", "statemachine", "state"), "Child": ("MB", "statemachine", "state"),
+                "GrandChild": ("MB", "statemachine", "state"), "Sibling": ("MA", "sm2", "state"),
+                "Other": ("MB", "statemachine", "status")}
+
+
+def run_mixin_models(rng, counters, violations):
+    """Model classes built on MachineMixin, related by inheritance and naming different machine
+    classes: every model instance gets a machine of the class ITS class names, in any creation
+    order, and driving one instance leaves the others alone."""
+    import warnings
+
+    from statemachine import State, StateMachine
+    from statemachine.exceptions import TransitionNotAllowed
+    from statemachine.mixins import MachineMixin
+
+    from props import c13
+
+    c13.django_once()      # Django is installed in the repository's venv: an empty configured project
+    ns = {"State": State, "StateMachine": StateMachine, "MachineMixin": MachineMixin, "__name__": "vmon_c16m"}
+    problems = []
+    with warnings.catch_warnings():
+        warnings.simplefilter("ignore")
+        exec(compile(MIXIN_SRC, "<c16-mixin>", "exec"), ns)
+        order = [rng.choice(list(MIXIN_EXPECT)) for _ in range(rng.randint(4, 9))]
+        objs = []
+        for nm in order:
+            mcls, attr, field = MIXIN_EXPECT[nm]
+            try:
+                o = ns[nm]()
+            except Exception as err:  # noqa: BLE001
+                problems.append(f"{nm}() after {order[:len(objs)]} raised {type(err).__name__}: {err}")
+                break
+            sm = getattr(o, attr, None)
+            if type(sm) is not ns[mcls]:
+                problems.append(f"{nm}() created after {order[:len(objs)]}: machine is {type(sm).__name__}, its class names {mcls}")
+            elif sm.model is not o or getattr(o, field, None) != "a":
+                problems.append(f"{nm}(): model / field not this object's ({field}={getattr(o, field, None)!r})")
+            objs.append((nm, o, sm))
+        expect = {id(o): "a" for _nm, o, _sm in objs}
+        for _ in range(rng.randint(3, 10)):
+            if problems or not objs:
+                break
+            nm, o, sm = rng.choice(objs)
+            mcls, attr, field = MIXIN_EXPECT[nm]
+            ev = rng.choice(["go", "only_a", "only_b"])
+            table = ({"a": {"go": "b", "only_a": "a"}, "b": {"go": "a"}} if mcls == "MA"
+                     else {"a": {"go": "c", "only_b": "b"}, "b": {"only_b": "a"}, "c": {"go": "a"}})
+            want = table[expect[id(o)]].get(ev)
+            try:
+                sm.send(ev)
+                got = "ran"
+            except TransitionNotAllowed:
+                got = "not-allowed"
+            except Exception as err:  # noqa: BLE001
+                got = type(err).__name__
+            if (got == "ran") != (want is not None) or got not in ("ran", "not-allowed"):
+                problems.append(f"{nm} in {expect[id(o)]}: send({ev}) -> {got}, the {mcls} machine says {'runs' if want else 'not allowed'}")
+            if want is not None:
+                expect[id(o)] = want
+            for nm2, o2, _sm2 in objs:
+                f2 = MIXIN_EXPECT[nm2][2]
+                if getattr(o2, f2, None) != expect[id(o2)]:
+                    problems.append(f"after {nm}.send({ev}): {nm2}.{f2} is {getattr(o2, f2, None)!r}, expected {expect[id(o2)]!r}")
+            counters["mixin_model_sends"] = counters.get("mixin_model_sends", 0) + 1
+        counters["mixin_models_created"] = counters.get("mixin_models_created", 0) + len(objs)
+    if problems:
+        violations.append({"mechanism": "mixin-model-class-gets-another-class-machine", "rule": "C16.other-class",
+                           "detail": "; ".join(problems)[:600], "witness": {"source": MIXIN_SRC, "order": order}})
 
 
 THREADS_SRC = '''
